@@ -15,6 +15,7 @@ def run(ctx):
     ctx.run(R.pan1_awaited_jobs_report_failures)
     ctx.run(D.erv4_no_error_discarded)
     ctx.run(O.pan6_cold_load_failures_are_values)
+    ctx.run(T.tbl26_reader_passes_stored_scalars_unchanged)
     return ctx.finish(
         'Static analysis: (a) MIR dataflow/dominance on the blob envelope - the payload is returned '
         'only after minimum-length, version, total-length and SHA-256 checks over exactly the '
